@@ -82,6 +82,7 @@ class Registers:
     def __init__(self):
         self._R = {}
         self.changed_registers = [False] * 16
+        self.it_restored = False
         for register in RName:
             self._R[register] = 0
         self.cpsr = CPSR()
@@ -460,6 +461,9 @@ class Registers:
             self.cpsr.it = set_substring(itstate, 4, 0, condition_state)
 
     def cpsr_write_by_instr(self, value, bytemask, is_excp_return):
+        if is_excp_return:
+            # the ITSTATE installed by an exception return belongs to the instruction returned to: it is not advanced
+            self.it_restored = True
         privileged = self.current_mode_is_not_user()
         nmfi = self.sctlr.nmfi
         if bit_at(bytemask, 3):
